@@ -277,6 +277,9 @@ def _n(x):
 # For a few operations the value is also known in closed form (closures over several variables of one frame, called after
 # the frame is gone): the reference run itself must produce it - "intact" means the variable's own value, not merely the
 # same wrong value under every schedule.
+MEMCHECK_EVERY = 24
+
+
 OPS_EXPECT = {
     "cap3a({u})()": lambda u: _v(_v(_n(u)), _v(_n(u + 2)), _v(_n(u + 1))),
     "cap3b({u})()": lambda u: _v(_v(_n(u + 2)), _v(_n(u)), _v(_n(u + 1))),
@@ -442,7 +445,7 @@ class C01:
                    "real free() is never exercised inside a scenario (allocator-level corruption is out of scope)"]
 
     def configs(self, tier):
-        return ["checked+hooks"]
+        return ["checked+hooks", "checked"]
 
     def plan(self, tier):
         return 6000 if tier == "quick" else 500000
@@ -540,6 +543,26 @@ class C01:
                 v["msg"] = "[%s] %s" % (label, v["msg"])
                 res["violation"] = v
                 return res
+        # memcheck slice: the plain checked build (collects at every allocation and really frees) under valgrind. Sees what
+        # the quarantine cannot: reads/writes of freed memory through raw pointers and borrow guards, invalid frees.
+        if sc.get("memcheck", stable_hash(ir) % MEMCHECK_EVERY == 0):
+            h = ctx.run("checked@memcheck", dict(sc, config={}))
+            stats.inc("executions")
+            stats.inc("memcheck_runs")
+            po = process_outcome(h)
+            v = None
+            if po:
+                v = {"class": po[0], "msg": po[1]}
+            else:
+                ev, outs = flat(h)
+                if ev != ref_events or outs != ref_outs:
+                    v = {"class": "output-depends-on-collector", "msg": "plain checked build (real frees) differs from the never-collect run"}
+            if v:
+                v["config"] = "checked@memcheck"
+                v["msg"] = "[memcheck] " + v["msg"]
+                res["violation"] = v
+                res["scenario"] = dict(sc, memcheck=True)
+                res["scenario"].pop("programs", None)
         return res
 
     def shrink(self, sc):
